@@ -7,12 +7,13 @@ open Panqec
     checker (C17).
 
     `checkdistance n k d stabs logX logZ cert` with `cert` = `E` (exhaustive enumeration below
-    `d`) or `P:c1,c2,…` (packing: `d` selection masks per listed logical, concatenated);
+    `d`), `C` (the same restricted to pure X / pure Z operators, CSS codes only) or `P:c1,c2,…` (packing: `d` selection masks per listed logical, concatenated);
     answer `<reportedDistanceFast> <checkDistance>` as 0/1. -/
 namespace Drv
 
 def parseDistCert (s : String) : Option DistCert :=
   if s == "E" then some .exhaustive
+  else if s == "C" then some .exhaustiveCSS
   else if s.startsWith "P:" then some (.packing (parseNats (s.drop 2).toString))
   else none
 
